@@ -413,7 +413,7 @@ func TestVerifC16Patterns(t *testing.T) {
 	pars := []par{{60, 12, 12, 2, 25}, {60, 12, 12, 2, 4}, {10, 3, 2, 1, 6}, {5, 5, 5, 3, 3}, {1, 1, 1, 1, 2}, {30, 30, 1, 2, 2}}
 	seqs, steps := 24, 20000
 	if vfh.Thorough() {
-		seqs, steps = 120, 100000
+		seqs, steps = 72, 100000
 	}
 	var mu sync.Mutex
 	closedOver := 0
@@ -1708,7 +1708,7 @@ func TestVerifC16Concurrent(t *testing.T) {
 	res.Rule = "one case = one seeded schedule of concurrent requests of one or two peers on the real server, with requests parked before the request / inside the dial-data read while others leave through each exit (cap, global, per-peer, dial-data limit, refused, read error, dial); monitor: handlers of one peer inside the serving section at the same time <= MaxConcurrentRequestsPerPeer"
 	n := 60
 	if vfh.Thorough() {
-		n = 400
+		n = 240
 	}
 	type par struct{ rpm, ddrpm int }
 	pars := []par{{10000, 10000}, {10000, 1}, {10000, 2}, {8, 1}, {5, 10000}, {12, 2}}
